@@ -11,6 +11,7 @@ mod tkgen;
 mod gs;
 mod gsgen;
 mod ops;
+mod up;
 
 use common::*;
 use std::io::Write;
@@ -33,6 +34,11 @@ impl World for ops::OpsWorld {
         ops::OpsWorld::exec(self, toks)
     }
 }
+impl World for up::UpWorld {
+    fn exec(&mut self, toks: &[&str]) -> (String, String) {
+        up::UpWorld::exec(self, toks)
+    }
+}
 impl World for gw::GwWorld {
     fn exec(&mut self, toks: &[&str]) -> (String, String) {
         gw::GwWorld::exec(self, toks)
@@ -45,6 +51,7 @@ pub fn new_world(cluster: &str) -> Box<dyn World> {
         "tk" => Box::new(tk::TkWorld::new()),
         "gs" => Box::new(gs::GsWorld::new()),
         "op" => Box::new(ops::OpsWorld::new()),
+        "up" => Box::new(up::UpWorld::new()),
         other => panic!("unknown cluster {other}"),
     }
 }
@@ -106,6 +113,7 @@ fn main() {
                 "C12" => tkgen::gen_c12(&mut run, seed, thorough),
                 "C14" => gsgen::gen_c14(&mut run, seed, thorough),
                 "C17" => ops::gen_c17(&mut run, seed, thorough),
+                "C15" => up::gen_c15(&mut run, seed, thorough),
                 other => {
                     eprintln!("no generator for {other}");
                     std::process::exit(2);
